@@ -166,7 +166,10 @@ class PhaseMonitor(Monitor):
                 ctx.violate(f'operations of several phases available at '
                             f'once: {avail}')
             fp = fingerprint(state)
-            if fp in self.seen:
+            forked = bool(ctx.script) and ctx.script[-1][0] == '__fork__'
+            # (right after the driver moved the hand onto a deepcopy the
+            # same decision point is presented once more: not a repetition)
+            if fp in self.seen and not forked:
                 ctx.violate(f'decision state repeated after op '
                             f'#{ctx.nevents} (no progress)')
             self.seen.add(fp)
